@@ -4,6 +4,9 @@
    (Properties/C10dial.v, Model/Dialer.v). *)
 From Coq Require Import Lia.
 From CR Require Import Model.Group Proofs.Group Model.Listener Proofs.Listener Model.Teardown gen.ExtGroup.
+(* (c): the dialer clauses C10_constants, C10_delay_literal, C10_trace_is_chunks, C10_backoff, C10_attempts,
+   C10_timeout_is_error, C10_policy, C10_policy_classes, C10_cancel_partial are stated in Properties/C10dial.v *)
+From CR Require Properties.C10dial.
 Local Open Scope nat_scope.
 
 (* ---- (a) teardown.  The guards of the LTS are read from the source on every run: every send on
@@ -86,3 +89,13 @@ Print Assumptions C10_reaction.
 Print Assumptions C10_rx_retry.
 Print Assumptions C10_rx_exhausted.
 Print Assumptions C10_rx_reset.
+
+Print Assumptions C10dial.C10_constants.
+Print Assumptions C10dial.C10_delay_literal.
+Print Assumptions C10dial.C10_trace_is_chunks.
+Print Assumptions C10dial.C10_backoff.
+Print Assumptions C10dial.C10_attempts.
+Print Assumptions C10dial.C10_timeout_is_error.
+Print Assumptions C10dial.C10_policy.
+Print Assumptions C10dial.C10_policy_classes.
+Print Assumptions C10dial.C10_cancel_partial.
